@@ -26,6 +26,10 @@ type c07Input struct {
 	Dbg    string  `json:"dbg"`  // none | recording | default
 	Ctx    progCtx `json:"ctx"`
 	Src    string  `json:"src"`
+	// BigScript: the transaction of the context additionally carries an output
+	// (and, with several inputs, another input's unlocking script) of this many
+	// non-repeating bytes
+	BigScript int `json:"big_script,omitempty"`
 }
 
 var c07Modes = []string{"scripts-only", "tx", "tx+scripts", "tx-nil-prevout", "nil-tx-neg-idx", "nil-tx-idx0", "idx-out-of-range", "idx-minus-one",
@@ -51,6 +55,15 @@ func c07Options(in *c07Input) []interpreter.ExecutionOptionFunc {
 		}
 		for i := 0; i < nOuts; i++ {
 			tx.Outputs = append(tx.Outputs, &bt.Output{Satoshis: uint64(i + 1), LockingScript: bscript.NewFromBytes([]byte{0x51})})
+		}
+		if in.BigScript > 0 {
+			br := prng.New(uint64(in.BigScript), "C07-big", 0)
+			tx.Outputs = append(tx.Outputs, &bt.Output{Satoshis: 7, LockingScript: bscript.NewFromBytes(append([]byte{0x00, 0x6a}, br.Bytes(in.BigScript-2)...))})
+			for i := range tx.Inputs {
+				if i != idx {
+					tx.Inputs[i].UnlockingScript = bscript.NewFromBytes(br.Bytes(in.BigScript + 1))
+				}
+			}
 		}
 		return tx
 	}
@@ -437,6 +450,33 @@ func init() {
 							}
 							l := append(append(append([]byte{}, pre...), m.l...), tl...)
 							judge(c, &c07Input{Unlock: m.u, Lock: l, Flags: fl, Mode: c07Modes[int(n/2)%len(c07Modes)], Dbg: []string{"none", "recording"}[n%2], Ctx: defaultCtx(), Src: "multisig-shapes"})
+						}
+					}
+				}
+			}
+		}
+		c.Phase("large-scripts-in-context") // signature opcodes reached while the transaction of the context holds scripts beyond the readers' 16 KiB chunk
+		n = 0
+		{
+			sig := func(ht byte) []byte { return gen.Push([]byte{0x30, 0x06, 0x02, 0x01, 0x01, 0x02, 0x01, 0x01, ht}) }
+			for _, size := range []int{16384, 16385, 20000, 32768, 40000, 70000} {
+				for _, ht := range []byte{0x01, 0x41, 0x03, 0xc2} {
+					progs := [][2][]byte{
+						{sig(ht), append(gen.Push(c07KeyG), 0xac)},
+						{append([]byte{0x00}, sig(ht)...), append(append(append([]byte{0x51}, gen.Push(c07KeyG)...), gen.Push(c07Key2G)...), 0x52, 0xae)},
+						{append(sig(ht), gen.Push(c07Key2G)...), []byte{0x76, 0xa9, 0x14, 1, 2, 3, 4, 5, 6, 7, 8, 9, 10, 11, 12, 13, 14, 15, 16, 17, 18, 19, 20, 0x88, 0xad, 0x51}},
+					}
+					for pi, pg := range progs {
+						for _, m := range []string{"tx", "tx+scripts", "prevout-nil-script"} {
+							for _, fl := range []uint32{0, uint32(scriptflag.EnableSighashForkID | scriptflag.UTXOAfterGenesis)} {
+								n++
+								if !c.Case(n) {
+									continue
+								}
+								cx := defaultCtx()
+								cx.Sats = uint64(3*pi + int(n%27)) // 1-3 inputs, 0-2 further outputs, any checked position
+								judge(c, &c07Input{Unlock: pg[0], Lock: pg[1], Flags: fl, Mode: m, Dbg: "none", Ctx: cx, Src: "large-scripts-in-context", BigScript: size})
+							}
 						}
 					}
 				}
